@@ -23,6 +23,9 @@ RULE = (
     "outcomes compared at every step and against fresh programs. "
     "distinct_nontrivial counts distinct (source, bindings) pairs that contain a short-circuit operator, a macro, has(), or evaluate to an error."
 )
+TECHNIQUE = (
+    "runtime monitoring: differential oracle (interpreting vs compiled runner) over generated, corpus and deterministic programs, program-reuse histories; fault localisation names the mechanism"
+)
 ASSUMPTIONS = [
     "the interpreting runner is the reference; cases where it leaves with a non-CEL exception are C04's and are not compared",
     "expressions use built-in operators/functions/macros only (host functions are C14)",
